@@ -161,6 +161,8 @@ class ExprMixin:
             return mk_bool(name == 'True')
         if name in PY_BUILTINS:
             return V(FUN, ('builtin', name))
+        if name in self.reg.external:
+            return V(MOD, name)       # a module-level callable the sidecar gives an assumed contract (e.g. a functools.partial)
         raise Unsupported(f'unresolved name {name}')
 
     def resolve_dotted(self, dotted):
